@@ -116,6 +116,7 @@ def check(run):
     run.subject('C16-R4')
     run.ok('C16-R4', 'inline memo rule', 'self-check on the built-in example: late reset and missing reset reported, correct mutator accepted', sample=False)
     _filter_range(run, prog)
+    _unconditional_clear(run, prog)
     from ..cachekey import check_caches
     check_caches(run, [m for k, m in prog.modules.items() if k.startswith('cherab.tools.spectroscopy')], 'C16-K', prog=prog)
 
@@ -377,6 +378,36 @@ def _all_widths_min(e, v):
 def const_index(sl):
     from ..program import const_fold
     return const_fold(sl) is not None
+
+
+def _unconditional_clear(run, prog):
+    """R6: the routines the setters call to invalidate the computed settings reset every field they are responsible for on every call: a
+    reset that is skipped on the strength of *one* of the fields (bins still None) leaves the others as an interrupted computation left
+    them, and they are then served as the settings of the new parameters."""
+    run.describe('C16-R6', 'invalidation routines (_clear_*) reset their fields unconditionally')
+    n = 0
+    for ci in sorted(prog.classes.values(), key=lambda c: c.qual):
+        if not ci.mod.relpath.startswith('cherab/tools/spectroscopy/'):
+            continue
+        for mname, m in sorted(ci.methods.items()):
+            if not mname.startswith('_clear'):
+                continue
+            resets = [st for st in ast.walk(m) if isinstance(st, ast.Assign) and norm(st.value) == 'None' and norm(st.targets[0]).startswith('self.')]
+            if not resets:
+                continue
+            n += 1
+            run.subject('C16-R6')
+            top = [st for st in m.body if st in resets]
+            early = [x for x in ast.walk(m) if isinstance(x, ast.Return)]
+            if len(top) == len(resets) and not early:
+                run.ok('C16-R6', '%s.%s' % (ci.name, mname), 'resets %s on every call' % [norm(st.targets[0])[5:] for st in resets])
+            else:
+                where = (early or [r for r in resets if r not in top])[0]
+                run.fail('C16-R6', '%s|%s|%s|conditional' % (ci.mod.name, ci.name, mname), ci.mod.relpath, where.lineno,
+                         '%s.%s does not reset %s on every call (%s): after a computation of the settings that stopped half-way the fields it '
+                         'had already set survive the next parameter change and are returned as current'
+                         % (ci.name, mname, [norm(st.targets[0])[5:] for st in resets], 'early return' if early else 'reset under a condition'))
+    run.floor('C16-R6', 1)
 
 
 def _filter_range(run, prog):
